@@ -28,22 +28,29 @@ static void verif_ListEmpty(STEPaggregate *a) { g_list_n = 0; a->head = 0; }
 #undef private
 #undef protected
 #include "verif.h"
-Severity CheckRemainingInput(istream &, ErrorDescriptor *e, const std::string, const char *) { return e->severity(); }
-Severity CheckRemainingInput(istream &, ErrorDescriptor *e, const char *, const char *) { return e->severity(); }
+/* contract stub (under contract in unit str_cc): garbage between an element and its delimiter is added to the descriptor it is given */
+static int g_cri_calls; static Severity g_cri_sev[4];
+Severity CheckRemainingInput(istream &, ErrorDescriptor *e, const char *, const char *) { if (g_cri_calls < 4) e->GreaterSeverity(g_cri_sev[g_cri_calls]); g_cri_calls++; return e->severity(); }
+Severity CheckRemainingInput(istream &in, ErrorDescriptor *e, const std::string t, const char *d) { return CheckRemainingInput(in, e, t.c_str(), d); }
 
 static STEPaggregate *mk_aggr() { STEPaggregate *a = (STEPaggregate *)malloc(sizeof(STEPaggregate)); a->head = 0; a->tail = 0; for (int i = 0; i < 4; i++) g_nodes[i] = (STEPnode *)malloc(sizeof(STEPnode)); return a; }
 
 /* C01/C03: "(...)" is read element by element, in order; "()" yields a set, empty aggregate; "$" an unset one; a missing ")" is an error */
 extern "C" void h_ReadValue()
 {
-    IN(int, in_shape); IN(int, in_wasnull);
+    IN(int, in_shape); IN(int, in_wasnull); IN(int, in_es0); IN(int, in_es1); IN(int, in_cs0); IN(int, in_cs1);
     STEPaggregate *a = mk_aggr();
     TypeDescriptor *td = (TypeDescriptor *)malloc(8);
     __CPROVER_assume(in_shape >= 0 && in_shape < 6);
     const char *txt[6] = { "()", "( )", "(x)", "(x,y)", "$", "(x" };
     g_stream_arbitrary = 0; int n = 0; while (txt[in_shape][n]) { g_stream_script[n] = txt[in_shape][n]; n++; } g_stream_len = n;
     istream in; in._m_state = 0; in._m_have = 0; in._m_consumed = 0;
-    a->_null = in_wasnull != 0; g_list_n = 0; g_new_calls = 0; g_read_calls = 0; for (int i = 0; i < 4; i++) g_read_sev[i] = SEVERITY_NULL;
+    a->_null = in_wasnull != 0; g_list_n = 0; g_new_calls = 0; g_read_calls = 0; for (int i = 0; i < 4; i++) { g_read_sev[i] = SEVERITY_NULL; g_cri_sev[i] = SEVERITY_NULL; }
+    /* what the element readers and the check for garbage before the delimiter report for elements 0 and 1 */
+#define SEV_OK(x) ((x) == SEVERITY_NULL || (x) == SEVERITY_USERMSG || (x) == SEVERITY_INCOMPLETE || (x) == SEVERITY_WARNING || (x) == SEVERITY_INPUT_ERROR)
+    __CPROVER_assume(SEV_OK(in_es0) && SEV_OK(in_es1) && SEV_OK(in_cs0) && SEV_OK(in_cs1));
+    g_read_sev[0] = (Severity)in_es0; g_read_sev[1] = (Severity)in_es1; g_cri_sev[0] = (Severity)in_cs0; g_cri_sev[1] = (Severity)in_cs1; g_cri_calls = 0;
+    int e0 = in_es0 < in_cs0 ? in_es0 : in_cs0, e1 = in_es1 < in_cs1 ? in_es1 : in_cs1;     /* worst report per element */
     ErrorDescriptor err;
     Severity s = a->STEPaggregate::ReadValue(in, &err, td, 0, 0, 1, 1, 0);
     if (in_shape <= 1) {
@@ -53,7 +60,10 @@ extern "C" void h_ReadValue()
         int k = in_shape - 1;
         __CPROVER_assert(!a->_null && g_list_n == k && g_new_calls == k && g_read_calls == k, "C01 every element of an aggregate value is read once into a new node");
         __CPROVER_assert(g_list[0] == g_nodes[0] && (k < 2 || g_list[1] == g_nodes[1]), "C01 the elements of an aggregate keep their order");
-        __CPROVER_assert(s == SEVERITY_NULL && in._m_consumed == (unsigned long)n, "a well-formed aggregate value is read without error up to and including its closing parenthesis");
+        int worst = (k < 2 || e0 < e1) ? e0 : e1;
+        __CPROVER_assert(in._m_consumed == (unsigned long)n, "an aggregate value is read up to and including its closing parenthesis, whatever its elements report");
+        if (worst >= SEVERITY_INCOMPLETE) __CPROVER_assert(s == SEVERITY_NULL, "a well-formed aggregate value is read without error");
+        else __CPROVER_assert((int)s <= worst && (int)err.severity() <= worst, "C03 an element of the wrong literal kind, or garbage before its delimiter (a warning or worse from the element reader or the delimiter check), makes the aggregate's read at least as bad - at any element position");
     } else if (in_shape == 4) {
         __CPROVER_assert(a->_null && s == SEVERITY_INCOMPLETE && g_list_n == 0, "C01 $ is read as an unset aggregate");
     } else {
